@@ -16,6 +16,8 @@ def dec(x):
     if isinstance(x, dict):
         if '__bytes__' in x:
             return bytes.fromhex(x['__bytes__'])
+        if '__bytearray__' in x:
+            return bytearray.fromhex(x['__bytearray__'])
         if '__tuple__' in x:
             return tuple(dec(i) for i in x['__tuple__'])
         if '__struct__' in x:
@@ -32,7 +34,9 @@ def dec(x):
 
 
 def enc(x):
-    if isinstance(x, (bytes, bytearray)):
+    if isinstance(x, bytearray):
+        return {'__bytearray__': bytes(x).hex()}
+    if isinstance(x, bytes):
         return {'__bytes__': bytes(x).hex()}
     if isinstance(x, tuple):
         return {'__tuple__': [enc(i) for i in x]}
@@ -54,7 +58,7 @@ def spec_env():
     import specs.wire as W
     for m in (P, W):
         env.update({k: v for k, v in vars(m).items() if not k.startswith('__')})
-    for name in ('gen_parse', 'codec', 'small', 'murmur', 'group', 'state'):
+    for name in ('gen_parse', 'codec', 'hashspec', 'small', 'murmur', 'group', 'state'):
         try:
             m = importlib.import_module('specs.' + name)
             env.update({k: v for k, v in vars(m).items() if not k.startswith('__')})
